@@ -614,6 +614,14 @@ func RunChild(sc *Scenario) *Result {
 			}
 		case "sleep":
 			hold(st.US)
+		case "trigger":
+			// the event of the listed modules is triggered (again): every hook on it runs once more
+			for _, n := range st.Mods {
+				if c.mods[n].Online() {
+					c.mods[n].TriggerEvent("ev", nil)
+				}
+			}
+			c.rec(Event{Kind: "triggered", Info: strings.Join(st.Mods, ",")})
 		case "straddle":
 			// microtasks started on modules that are not online (never started yet, or stopped) and still running when the
 			// module is started (again): they see a cancelled context or none that matters, and they are counted like any other
